@@ -55,6 +55,8 @@ SessionDiff(ev) ==
   \cup (IF ev.quit_sent = 0 /\ ev.alive = 0 THEN {"terminated"} ELSE {})
   \cup (IF ev.quit_sent = 1 /\ ev.exit = 0 /\ ev.termios_after # ev.termios_before THEN {"terminal_mode"} ELSE {})
   \cup (IF ev.quit_sent = 1 /\ ev.exit = 0 /\ (ev.modes.mouse # 0 \/ ev.modes.cursor # 1 \/ ev.modes.altscreen # 0) THEN {"terminal_modes"} ELSE {})
+  \* quit was requested, nothing happened until the operator typed something else, then the client ended
+  \cup (IF "delayed" \in DOMAIN ev /\ ev.delayed = 1 THEN {"quit_delayed_until_more_input"} ELSE {})
 
 CliDiff(ev) == (IF ev.panic = 1 \/ ev.exit = 101 THEN {"cli_panic"} ELSE {})
                \cup (IF ev.invalid = 1 /\ ev.exit # 2 THEN {"cli_usage"} ELSE {})
